@@ -6,22 +6,31 @@ import re
 
 V = os.path.dirname(os.path.dirname(os.path.abspath(__file__)))
 rows = []
+own = cross = 0
 for name in sorted(os.listdir(os.path.join(V, "seeded"))):
     mp = os.path.join(V, "seeded", name, "meta.json")
     if not os.path.exists(mp):
         continue
     m = json.load(open(mp))
+    prop = m["breaks_property"]
     checks = m.get("checks", {})
+    tq = (checks.get("quick") or {}).get(prop, {})
     allq = checks.get("quick-all") or {}
-    tq = (checks.get("quick") or {}).get(m["breaks_property"], {})
-    target = allq.get(m["breaks_property"], tq)
-    det = sorted(p for p, r in allq.items() if isinstance(r, dict) and r.get("verdict") == "DETECTED")
+    det = sorted(p for p, r in allq.items() if isinstance(r, dict) and r.get("verdict") == "DETECTED" and p != prop)
+    verdict = tq.get("verdict", "?") if isinstance(tq, dict) else "?"
     rule = ""
-    if isinstance(target, dict) and target.get("rules"):
-        rule = re.sub(r"part=(\S+) rule=(\S+)", r"\2", target["rules"][0])
-    summary = m.get("summary", "")
-    rows.append((name, summary, target.get("verdict", "?") if isinstance(target, dict) else "?", rule, ", ".join(d for d in det if d != m["breaks_property"])))
-print("| id | change (one line) | own property's check (quick) | first rule | also detected by |")
-print("|---|---|---|---|---|")
+    if isinstance(tq, dict) and tq.get("rules"):
+        rule = re.sub(r"part=(\S+) rule=(\S+)", r"\1: \2", tq["rules"][0])
+    if verdict == "DETECTED":
+        own += 1
+        col = "%s (%s)" % (prop, rule)
+    else:
+        cross += 1 if det else 0
+        col = "— ; caught by " + ", ".join(det) if det else "**missed**"
+    rows.append((name, m.get("summary", ""), m.get("needs_to_manifest", ""), col))
+print("| id | change | needs to manifest | detected by (quick tier) |")
+print("|---|---|---|---|")
 for r in rows:
-    print("| %s | %s | %s | %s | %s |" % r)
+    print("| %s | %s | %s | %s |" % r)
+print()
+print("%d changes; %d detected by the check of the property they were written against, %d only by the check of another property." % (len(rows), own, cross))
